@@ -369,6 +369,21 @@ func GenOpsT(t *rapid.T, cfg pat.Cfg, pool []string, n int, o GenOpts) ([]Op, []
 		default:
 			p, _ := pickLive("pcp")
 			cut := rapid.IntRange(0, len(p)).Draw(t, "pcCut")
+			if rapid.Bool().Draw(t, "pcAtToken") {
+				// right behind a parameter token, or behind the separator that follows it
+				var ends []int
+				for i := 0; i < len(p); i++ {
+					if p[i] == '}' {
+						ends = append(ends, i+1)
+						if i+2 <= len(p) && i+1 < len(p) {
+							ends = append(ends, i+2)
+						}
+					}
+				}
+				if len(ends) > 0 {
+					cut = rapid.SampledFrom(ends).Draw(t, "pcTokenEnd")
+				}
+			}
 			if !o.Facades {
 				// still a Router-level operation family: Prefix(s).Clean is the only prefix clean there is
 			}
